@@ -154,11 +154,16 @@ theorem mul_accepts_documented :
     (∀ t ∈ TyTag.documented, Gen.mulGuard t = .ok ()) ∧ (∀ t ∈ TyTag.numeric, Gen.mulGuard t = .ok ()) ∧
     (∀ t ∈ [TyTag.str, TyTag.none], (Gen.mulGuard t).toBool = false) := by decide
 
-/-- **The source has exactly the write sets the model assumes** (table regenerated from the AST of the running code
-on every check): for each of the 43 covered DarSIA functions, the writes to caller-owned objects (parameters and
-anything aliased to them, `self` outside constructors, the global numpy RNG) found in the source are the declared
-ones — only `append`, `set_time`, in-place `to_trichromatic` (and the cache of `Geometry.integrate`) write, and only
-to `self`. A new in-place write anywhere in these functions breaks this obligation. -/
+/-- **The source has exactly the write sets the model assumes** (table regenerated on every check by a SYNTACTIC
+may-alias analysis of the AST of the running code): for each of the 43 covered DarSIA functions, the writes to
+caller-owned objects the analysis finds — attribute stores, augmented / item assignments, method- and function-style
+mutator calls (`list.append`, `np.copyto`, `random.shuffle`, …), calls of DarSIA's own self-mutating methods, `out=`,
+calls into the global numpy / python random modules; on parameters (`self` outside constructors) and on names aliased
+to them by plain / tuple / loop assignment, subscripts, attributes and view-returning calls (`x.reshape`,
+`np.asarray(x)`, …) — are the declared ones: only `append`, `set_time`, in-place `to_trichromatic` (and the cache of
+`Geometry.integrate`) write, and only to `self`. A new in-place write of one of these syntactic forms in these
+functions breaks this obligation; aliasing through containers built by calls, closures, helper functions or library
+internals is outside the analysis (covered by the correspondence and the oracle only). -/
 theorem source_write_sets : ∀ f ∈ SrcFn.all, sameSet (Gen.writeSet f) (declaredWrites f) = true := by decide
 
 /-- every modelled *returning* call stands for source functions with empty write sets (so the frame property of the
